@@ -542,6 +542,7 @@ pub struct Sim<'p> {
     pub seam: SeamHandle,
     /// Mirror of what sits in the real uplink channel.
     chan_mirror: VecDeque<(u64, Vec<u8>)>,
+    established_own: bool,
     /// Due uplink datagrams not yet pushed (fine mode).
     pending_uplink: VecDeque<(u64, Vec<u8>)>,
     client_rxq: VecDeque<Option<Vec<u8>>>,
@@ -697,6 +698,7 @@ impl<'p> Sim<'p> {
             env,
             seam,
             chan_mirror: VecDeque::new(),
+            established_own: false,
             pending_uplink: VecDeque::new(),
             client_rxq: VecDeque::new(),
             hk_deadline: start + HK_PERIOD_MS,
@@ -1007,7 +1009,9 @@ impl<'p> Sim<'p> {
         } else {
             None
         };
-        let has_connected_pre = self.world.reg.has_connected;
+        // "The session is established" is the simulator's own observation (a REG3 has been
+        // processed by some uplink in an earlier step), not the implementation's flag.
+        let has_connected_pre = self.established_own;
         let last_selected_pre = self.world.last_selected_idx;
         let client_addr_pre = self.world.last_client_addr;
         let critical_pre = self.world.critical.is_critical_now(self.now);
@@ -1205,6 +1209,11 @@ impl<'p> Sim<'p> {
         let _ = chan_before;
         while self.chan_mirror.len() > remaining {
             uplink.push(self.chan_mirror.pop_front().unwrap());
+        }
+        if uplink.iter().any(|(c, b)| {
+            b.len() >= 2 && u16::from_be_bytes([b[0], b[1]]) == 0x9202 && self.world.conns.iter().any(|x| x.conn_id == *c)
+        }) {
+            self.established_own = true;
         }
         // Mirrored instant-forward task: drain the channel to the client socket.
         while let Ok((_addr, pkt)) = self.world.instant_rx.try_recv() {
